@@ -22,6 +22,7 @@ import (
 	"encoding/asn1"
 	"encoding/hex"
 	"encoding/pem"
+	"errors"
 	"fmt"
 	"io"
 	"math/big"
@@ -278,6 +279,9 @@ type genCert struct {
 	name string
 	der  []byte
 	rsa  bool // RSA subject key
+	// refused by the lenient parser for the reason recorded as a known finding (K7): kept out of the PEM bundles, where
+	// its refusal would be reported a second time as a bundle that does not yield all its certificates
+	known bool
 }
 
 func nameString(n pkix.Name) string { return n.String() }
@@ -788,6 +792,44 @@ func runCertificates(c *core.Ctx) []genCert {
 			t.IPAddresses = []net.IP{net.ParseIP("10.0.0.1")}
 		}},
 	}
+	// the extension kinds a CA certificate above an attestation certificate may carry: name constraints (permitted /
+	// excluded, DNS and other name forms, critical or not), revocation and authority information
+	type prof = struct {
+		name string
+		fill func(t *x509.Certificate)
+	}
+	profiles = append(profiles,
+		prof{"name-constraints-permitted", func(t *x509.Certificate) {
+			t.IsCA, t.BasicConstraintsValid = true, true
+			t.KeyUsage = x509.KeyUsageCertSign
+			t.PermittedDNSDomains = []string{"example.com", ".piv.example.org"}
+		}},
+		prof{"name-constraints-permitted-critical", func(t *x509.Certificate) {
+			t.IsCA, t.BasicConstraintsValid = true, true
+			t.KeyUsage = x509.KeyUsageCertSign
+			t.PermittedDNSDomainsCritical = true
+			t.PermittedDNSDomains = []string{"example.com"}
+		}},
+		prof{"name-constraints-excluded-critical", func(t *x509.Certificate) {
+			t.IsCA, t.BasicConstraintsValid = true, true
+			t.KeyUsage = x509.KeyUsageCertSign
+			t.PermittedDNSDomainsCritical = true
+			t.PermittedDNSDomains = []string{"example.com"}
+			t.ExcludedDNSDomains = []string{"test.example.com"}
+		}},
+		prof{"name-constraints-other-forms-critical", func(t *x509.Certificate) {
+			t.IsCA, t.BasicConstraintsValid = true, true
+			t.KeyUsage = x509.KeyUsageCertSign
+			t.PermittedDNSDomainsCritical = true
+			_, n, _ := net.ParseCIDR("10.0.0.0/8")
+			t.PermittedIPRanges = []*net.IPNet{n}
+			t.PermittedEmailAddresses = []string{"example.com"}
+		}},
+		prof{"revocation-and-authority-information", func(t *x509.Certificate) {
+			t.OCSPServer = []string{"http://ocsp.example.com"}
+			t.IssuingCertificateURL = []string{"http://ca.example.com/ca.crt"}
+			t.CRLDistributionPoints = []string{"http://crl.example.com/x.crl", "ldap://crl.example.com/cn=x"}
+		}})
 	if c.Thorough() {
 		profiles = append(profiles, struct {
 			name string
@@ -814,6 +856,9 @@ func runCertificates(c *core.Ctx) []genCert {
 					continue
 				}
 				if !c.Thorough() && strings.HasPrefix(p.name, "alternative-names") && !(gi < 2 && (si == 0 || si == 4)) { // a few subjects are enough on the quick tier
+					continue
+				}
+				if !c.Thorough() && (strings.HasPrefix(p.name, "name-constraints") || strings.HasPrefix(p.name, "revocation")) && !(gi < 3 && si < 3) {
 					continue
 				}
 				if !c.Thorough() && strings.Contains(s.name, "-e=") && gi > 1 { // unusual exponents: two signers are enough on the quick tier
@@ -852,7 +897,7 @@ func runCertificates(c *core.Ctx) []genCert {
 					c.Note(fmt.Sprintf("CreateCertificate %s/%s/%s: %v", s.name, g.name, p.name, err))
 					continue
 				}
-				out = append(out, genCert{fmt.Sprintf("%s signed %s profile %s", s.name, g.name, p.name), der, s.rsa})
+				out = append(out, genCert{name: fmt.Sprintf("%s signed %s profile %s", s.name, g.name, p.name), der: der, rsa: s.rsa})
 			}
 		}
 	}
@@ -873,7 +918,7 @@ func runCertificates(c *core.Ctx) []genCert {
 			if sc, err := x509.ParseCertificate(blk.Bytes); err == nil {
 				_, isRSA = sc.PublicKey.(*rsa.PublicKey)
 			}
-			out = append(out, genCert{"testdata " + filepath.Base(f), blk.Bytes, isRSA})
+			out = append(out, genCert{name: "testdata " + filepath.Base(f), der: blk.Bytes, rsa: isRSA})
 		}
 	}
 	c.StatN("certificates", len(out))
@@ -896,6 +941,18 @@ func runCertificates(c *core.Ctx) []genCert {
 			continue
 		}
 		if yerr != nil {
+			// known finding K7: a CRITICAL name-constraints extension that excludes subtrees, or constrains name forms other
+			// than DNS names, is "unhandled" for the lenient parser (the fork predates their support in crypto/x509) and the
+			// certificate is refused with exactly that error; every other refusal of a well-formed certificate is a violation
+			var unhandled x509.UnhandledCriticalExtension
+			otherForms := len(s.ExcludedDNSDomains)+len(s.PermittedIPRanges)+len(s.ExcludedIPRanges)+len(s.PermittedEmailAddresses)+
+				len(s.ExcludedEmailAddresses)+len(s.PermittedURIDomains)+len(s.ExcludedURIDomains) > 0
+			if errors.As(yerr, &unhandled) && s.PermittedDNSDomainsCritical && otherForms {
+				out[gi].known = true
+				c.KnownFindingProbe("K7-critical-name-constraints", "a certificate whose critical name-constraints extension excludes subtrees or constrains other name forms than DNS names is refused by yubiattest.ParseCertificate (unhandled critical extension)",
+					map[string]interface{}{"certificate": gc.name, "lenient_error": yerr.Error()})
+				continue
+			}
 			c.Native("yubiattest.ParseCertificate rejects a well-formed certificate that crypto/x509 accepts: "+yerr.Error(), in)
 			continue
 		}
@@ -1068,7 +1125,13 @@ func runCertificates(c *core.Ctx) []genCert {
 		}
 	}
 	driver.Imports += "\n" + certDefs.String()
-	return out
+	var usable []genCert
+	for _, g := range out {
+		if !g.known {
+			usable = append(usable, g)
+		}
+	}
+	return usable
 }
 
 // ------------------------------------------------------------ PEM bundles ----
